@@ -232,27 +232,43 @@ KEYS = sorted(KEY.KEY_TO_SEMITONE.keys(), key=str)
 KEY_STRINGS = ['%s %s' % (k, m) for k in KEYS if k != 'x' for m in ('major', 'minor', 'other')] + ['x']
 
 
+def key_domain(k):
+    """first k entries of a fixed interleaving of the key strings (k = len(KEY_STRINGS): the whole domain)"""
+    if k >= len(KEY_STRINGS):
+        return KEY_STRINGS
+    step = 7
+    order = [KEY_STRINGS[(i * step) % len(KEY_STRINGS)] for i in range(len(KEY_STRINGS))]
+    seen, out = set(), []
+    for x in order + KEY_STRINGS:
+        if x not in seen:
+            seen.add(x)
+            out.append(x)
+    return out[:k - 1] + ['x']
+
+
 def b_key(ctx, size):
+    dom = key_domain(size[0])
     i = ctx.integer('ref_key_index')
     j = ctx.integer('est_key_index')
     for v in (i, j):
         ctx.assume(v >= 0)
-        ctx.assume(v < len(KEY_STRINGS))
-    return dict(ref=(KeyIdx(i),), est=(KeyIdx(j),), kw={})
+        ctx.assume(v < len(dom))
+    return dict(ref=(KeyIdx(i, dom),), est=(KeyIdx(j, dom),), kw={})
 
 
 class KeyIdx:
     """symbolic index into the finite list of key strings; realised (enumerated) on use"""
 
-    def __init__(self, i):
+    def __init__(self, i, dom):
         self.i = i
+        self.dom = dom
 
     def __concretize__(self, model):
         from symx.harness import conc_scalar
-        return KEY_STRINGS[int(conc_scalar(self.i, model))]
+        return self.dom[int(conc_scalar(self.i, model))]
 
     def get(self):
-        return KEY_STRINGS[S.sym_int(self.i)]
+        return self.dom[S.sym_int(self.i)]
 
 
 def key_call(r, e):
@@ -467,7 +483,7 @@ add('transcription.offset_precision_recall_f1', TR.offset_precision_recall_f1, b
 # ---- tempo, key
 add('tempo.detection', TEMPO.detection, b_tempo, [('P', 'unit'), ('one', 'binary'), ('both', 'binary')], _sz([(2, 2)], [(2, 2)]),
     funcs=['tempo.detection', 'tempo.validate', 'tempo.validate_tempi'], mono=[('tol', [0, 1, 2])], nested=[(2, 1)])
-add('key.weighted_score', key_call, b_key, [('score', 'unit')], _sz([(1, 1)], [(1, 1)]), funcs=['key.weighted_score', 'key.validate_key', 'key.split_key_string'])
+add('key.weighted_score', key_call, b_key, [('score', 'unit')], _sz([(10, 10)], [(len(KEY_STRINGS), len(KEY_STRINGS))]), funcs=['key.weighted_score', 'key.validate_key', 'key.split_key_string'])
 
 # ---- alignment
 add('alignment.absolute_error', ALIGN.absolute_error, b_alignment(), [('median', 'nonneg'), ('mean', 'nonneg')], _sz([(1,), (2,), (3,)], [(1,), (2,), (3,), (4,)]),
